@@ -45,3 +45,27 @@ func TestSmoke(t *testing.T) {
 		}
 	}
 }
+
+func TestScriptedPeers(t *testing.T) {
+	p := GetPKI()
+	for _, suite := range []uint16{GMECCSM4CBCSM3, GMECCSM4GCMSM3} {
+		cc := GMClient(p, "sc")
+		cc.CipherSuites = []uint16{suite}
+		r := RunAgainstScriptedServer(cc, rgmssl.ServerOpts{ID: p.ServerIdentity(), Echo: []byte("hello from the reference server")}, nil, "seed", []byte("hello from gmtls"))
+		t.Logf("gmtls client vs reference server (%x): gm hs=%v recv=%q io=%v | peer err=%v app=%q log=%v", suite, r.GM.HSErr, r.GM.Received, r.GM.IOErr, r.PeerErr, r.Peer.AppIn, r.Peer.Log)
+		if r.GM.HSErr != nil || r.PeerErr != nil || string(r.GM.Received) != "hello from the reference server" || string(r.Peer.AppIn) != "hello from gmtls" {
+			t.Errorf("reference server interop failed")
+		}
+		sc := GMServer(p, "ss")
+		sc.ClientAuth = 4
+		sc.ClientCAs = p.RootsSM2
+		r = RunAgainstScriptedClient(sc, rgmssl.ClientOpts{Suites: []uint16{suite}, Cert: p.Client.DER, CertD: p.Client.SM2D, Send: []byte("hello from the reference client")}, nil, "seed", []byte("srv data"))
+		t.Logf("reference client vs gmtls server (%x): gm hs=%v recv=%q | peer err=%v app=%q", suite, r.GM.HSErr, r.GM.Received, r.PeerErr, r.Peer.AppIn)
+		if r.GM.HSErr != nil || r.PeerErr != nil || string(r.GM.Received) != "hello from the reference client" || string(r.Peer.AppIn) != "srv data" {
+			t.Errorf("reference client interop failed")
+		}
+		if len(r.GM.State.PeerCertificates) != 1 {
+			t.Errorf("server did not see the client certificate")
+		}
+	}
+}
